@@ -23,6 +23,7 @@ func init() {
 			{Name: "put-without-sendStop", Rule: "SEND-OWN", File: "pkg/eval/port.go", Old: "\tselect {\n\tcase vo.data <- v:\n\t\treturn nil\n\tcase <-vo.sendStop:\n\t\treturn *vo.sendError\n\t}", New: "\tvo.data <- v\n\treturn nil", Fire: true, Quick: true, Patterns: []string{"./pkg/eval"}},
 			{Name: "raw-send-on-port-chan", Rule: "SEND-OWN", File: "pkg/eval/builtin_fn_io.go", Old: "func repeat(fm *Frame, n int, v any) error {\n\tout := fm.ValueOutput()\n\tfor i := 0; i < n; i++ {\n\t\terr := out.Put(v)\n\t\tif err != nil {\n\t\t\treturn err\n\t\t}\n\t}", New: "func repeat(fm *Frame, n int, v any) error {\n\tfor i := 0; i < n; i++ {\n\t\tfm.ports[1].Chan <- v\n\t}", Fire: true, Patterns: []string{"./pkg/eval"}},
 			{Name: "close-sendStop-before-error", Rule: "STOP-ORDER", File: "pkg/eval/compile_effect.go", Old: "\t\t\t\t*input.sendError = errs.ReaderGone{}\n\t\t\t\tclose(input.sendStop)", New: "\t\t\t\tclose(input.sendStop)\n\t\t\t\t*input.sendError = errs.ReaderGone{}", Fire: true, Quick: true, Patterns: []string{"./pkg/eval"}},
+			{Name: "revert-fix-signal-through-port-table", Rule: "STOP-ORDER", File: "pkg/eval/compile_effect.go", Old: "\t\t\t\tinput := inputPipe\n", New: "\t\t\t\tinput := newFm.ports[0]\n\t\t\t\t_ = inputPipe\n", Fire: true, Want: "pipe's own port", Patterns: []string{"./pkg/eval"}},
 			{Name: "ports-not-closed", Rule: "STOP-ORDER", File: "pkg/eval/compile_effect.go", Old: "\t\t\tfor i, fop := range fops {\n\t\t\t\tfop.close(newFm.ports[i])\n\t\t\t}\n\t\t\twg.Done()", New: "\t\t\twg.Done()", Fire: true, Patterns: []string{"./pkg/eval"}},
 			{Name: "done-only-without-exception", Rule: "STOP-ORDER", File: "pkg/eval/compile_effect.go", Old: "\t\t\tfor i, fop := range fops {\n\t\t\t\tfop.close(newFm.ports[i])\n\t\t\t}\n\t\t\twg.Done()", New: "\t\t\tfor i, fop := range fops {\n\t\t\t\tfop.close(newFm.ports[i])\n\t\t\t}\n\t\t\tif exc != nil {\n\t\t\t\treturn\n\t\t\t}\n\t\t\twg.Done()", Fire: true, Patterns: []string{"./pkg/eval"}},
 			{Name: "done-before-close", Rule: "STOP-ORDER", File: "pkg/eval/compile_effect.go", Old: "\t\t\tfor i, fop := range fops {\n\t\t\t\tfop.close(newFm.ports[i])\n\t\t\t}\n\t\t\twg.Done()", New: "\t\t\twg.Done()\n\t\t\tfor i, fop := range fops {\n\t\t\t\tfop.close(newFm.ports[i])\n\t\t\t}", Fire: true, Patterns: []string{"./pkg/eval"}},
@@ -289,6 +290,71 @@ func runStopOrder(p *core.Program, r *core.Report) {
 	} else {
 		r.Bad("STOP-ORDER", fk+" *sendError stored before close(sendStop)", p.InsPos(closeStop), "sendStop is closed before the reader-gone error is stored: a writer woken by the close can return a nil error and report success although its value was dropped")
 	}
+	// 1b. the port signalled is the pipe's own port, not whatever is in the
+	// form's port table after the form ran (a redirection may have replaced it
+	// by a port without a back-channel: nil sendError/sendStop)
+	if fa, ok := storeErr.Addr.(*ssa.UnOp); ok {
+		if f2, ok := fa.X.(*ssa.FieldAddr); ok {
+			base := f2.X
+			fromTable := false
+			if ld, ok := base.(*ssa.UnOp); ok {
+				if ia, ok := ld.X.(*ssa.IndexAddr); ok && strings.HasSuffix(exprKey(ia.X), ".ports") {
+					fromTable = true
+				}
+			}
+			if fromTable {
+				r.Bad("STOP-ORDER", fk+" reader-gone signalled through the pipe's own port", p.InsPos(storeErr), "the port is re-read from the form's port table after the form ran: a redirection of stdin (cmd < file in a non-first form) replaces that slot by a port whose sendError/sendStop are nil, so the store dereferences nil and crashes the interpreter")
+			} else {
+				r.OK("STOP-ORDER", fk+" reader-gone signalled through the pipe's own port", p.InsPos(storeErr), "the port is the pipe's input port saved before the form ran")
+			}
+		}
+	}
+	// 1c. whether a reader-gone exception is suppressed must not depend on
+	// state another goroutine is writing at that moment (the readerGone flag
+	// is stored by the downstream stage while it shuts down)
+	core.Instrs(perForm, func(ins ssa.Instruction) {
+		st, ok := ins.(*ssa.Store)
+		if !ok {
+			return
+		}
+		if prm, ok := st.Addr.(*ssa.Parameter); !ok || !strings.HasSuffix(prm.Type().String(), "eval.Exception") {
+			return
+		}
+		racy := false
+		var dep func(v ssa.Value, depth int)
+		seenV := map[ssa.Value]bool{}
+		dep = func(v ssa.Value, depth int) {
+			if v == nil || depth > 8 || seenV[v] {
+				return
+			}
+			seenV[v] = true
+			if c, ok := v.(*ssa.Call); ok {
+				if callee := c.Call.StaticCallee(); callee != nil && core.PkgPathOf(callee) == "sync/atomic" && strings.HasPrefix(callee.Name(), "Load") {
+					racy = true
+				}
+			}
+			if insn, ok := v.(ssa.Instruction); ok {
+				for _, op := range insn.Operands(nil) {
+					if *op != nil {
+						dep(*op, depth+1)
+					}
+				}
+			}
+		}
+		for _, b := range perForm.Blocks {
+			if len(b.Instrs) == 0 {
+				continue
+			}
+			if iff, ok := b.Instrs[len(b.Instrs)-1].(*ssa.If); ok && (core.EdgeTo(b, st.Block()) >= 0) {
+				dep(iff.Cond, 0)
+			}
+		}
+		if racy {
+			r.Bad("STOP-ORDER", fk+" suppression of reader-gone does not depend on concurrently written state", p.InsPos(st), "whether the form's exception is recorded depends on an atomic flag that the downstream stage sets while shutting down: under some schedules a benign reader-gone is reported as the pipeline's exception")
+		} else {
+			r.OK("STOP-ORDER", fk+" suppression of reader-gone does not depend on concurrently written state", p.InsPos(st), "the guard only looks at the exception itself and at whether the form's output is a pipe")
+		}
+	})
 	// 2. after the form finishes, on every path: close(sendStop) (when guarded by the same input-is-pipe test) ... then wg.Done exactly once
 	isDone := func(x ssa.Instruction) bool { return isWGCall(x, "Done") }
 	if deferDone {
